@@ -38,6 +38,9 @@ ENVS = [
     ("two-bundles-printing-alike",
      (("ns", "D", "ex", "A"), ("bun", "B1", ("A", "b1", S("ex"))), ("el", "B1", "entity", ("A", "in1", S("ex"))),
       ("addb", "B2", ("B", "b1", Q("ex")))), "B2", Q("ex"), "B"),
+    # the prefix a clash on 'ex' would generate (ex_1) is already taken by a third namespace
+    ("generated-looking-prefix-taken",
+     (("ns", "D", "ex_1", "C"), ("el", "D", "entity", ("C", "top", S("ex_1"))), ("ns", "D", "ex", "B")), "D", Q("ex"), "A"),
     ("doc-and-bundle-records",
      (("ns", "D", "ex", "A"), ("el", "D", "entity", ("A", "top", S("ex"))), ("bun", "B1", ("A", "b1", S("ex")))),
      "B1", S("ex"), "A"),
